@@ -8,6 +8,12 @@ CHECKS = {
  'C01': dict(cat='exploration', tech=SYMX + '; oracle = reference interpreter',
    text='For every program shape of a size-bounded family (core vocabulary exhaustive to 2 statements, full vocabulary to 1, seeded larger shapes) all feasible paths of the compiled image on the real VM are explored with symbolic literals; on each path one z3 query shows that the device/clock/output trace equals the reference semantics for every value. Bounded in program size, loop counts (<=3) and paths per shape.',
    note='Trusted: z3, the symx proxies, the stub network (vlib/world.py), the reference interpreter (vlib/refsem.py). Floats are exact reals; numeral parsing is outside (C16).', ref='4/C01'),
+ 'C07': dict(cat='exploration', tech=SYMX + '; exact round-half-even via ToInt, NRA for rgb',
+   text='For every unit mode and every command kind that transmits a colour or duration (light, group, location, all, zone, matrix cell, matrix default, power on light/group/location/all, and-lists) the registers are unconstrained symbolic reals (|x|<=1e12) and every feasible path through units.py, param_helper, the VM and the device wrappers is explored; z3 shows that each transmitted number is an integer in protocol range and within 1/2 of the documented formula (clamped). Raw integer pass-through is checked exactly.',
+   note='Real arithmetic stands in for IEEE doubles (float rounding outside the claim); rgb exactness only for components in 0..100. Trusted: z3, symx proxies, stub network, spec formulas in vlib/refsem.py.', ref='4/C07'),
+ 'C14': dict(cat='exploration', tech='relational ' + SYMX + '; round-elision for rgb chains',
+   text='Every chain of up to 2 (quick) / 4 (thorough) unit switches from every start mode is executed twice by the real VM on the same symbolic registers (with and without the switches); z3 shows the transmitted colour (as a colour), the duration and the pending delay agree within one raw unit on every path pair, kelvin is unchanged, and for each of the 9 (from,to) transitions exactly the registers outside the documented table keep their values.',
+   note='Registers within documented valid ranges. Chains with rgb use round-elision (unrounded values agree to 1/4, implying <=1 unit for <=3 roundings). Real arithmetic for floats.', ref='4/C14'),
 }
 PENDING = {
 }
